@@ -52,6 +52,10 @@ def steps_c13(rng, nsteps, nthreads):
             if rng.random() < 0.08:
                 e["fields"].append({"name": "fa", "val": {"t": "boom", "v": ""}})
                 e["aborted"] = True
+            elif rng.random() < 0.08:
+                # a field whose Debug impl itself emits an event (message token n + 5000): see `nested` in FmtRecord
+                e["fields"].append({"name": "fa", "val": {"t": "nest", "v": str(n + 5000)}})
+                e["nested"] = True
             out.append(e)
         elif op == "burst":
             out.append({"op": "burst", "t": 1, "threads": rng.choice([2, 4, 8]), "per": rng.choice([3, 10]), "lvl": lvl, "tgt": tgt})
@@ -114,12 +118,15 @@ def behaviour_c13(rng):
         fmt = "full"       # (pretty records contain newlines: the chunks of a short-writing sink could not be re-assembled)
     # front end: the fmt::subscriber() layer on a registry, or the fmt() collector builder (own option forwarding, own Collect impl)
     return {"src": "random-c13", "format": fmt, "opts": opts, "opts_first": rng.random() < 0.4, "front": rng.choice(["layer", "layer", "builder"]),
+            # the collector as the process's global default without any scoped default (the usual init() set-up), or scoped per thread
+            "global": rng.random() < 0.4,
             "writer": {"shape": shape, "params": params, "failing": failing, "short": short, "locked": locked},
             "steps": steps_c13(rng, 40, nth)}
 
 
 def reset_fields(b):
-    return {"format": b["format"], "level": b["opts"]["level"], "se": SE[b["opts"]["span_events"]], "tree": SHAPES[b["writer"]["shape"]](b["writer"]["params"])}
+    return {"format": b["format"], "level": b["opts"]["level"], "se": SE[b["opts"]["span_events"]], "tree": SHAPES[b["writer"]["shape"]](b["writer"]["params"]),
+            "global": bool(b.get("global", False))}
 
 
 def project_write(raw, fmt, opts, step, spanrec=None):
